@@ -22,6 +22,17 @@ ASSUMPTIONS = [
     "by Spec.C17.holds (unique labels, slices, rows) and the Python-side view checks alone, as is "
     "done for scale / bs / poly atoms; uniqueness of `groups` is covered through the group labels "
     "`effect|factor[group]`, which embed them",
+    "a third family (seed paths 'na<i>', and 30% of the 'of<i>' family) has missing values (float NaN, "
+    "str None, Categorical NaN) in columns the formula uses, in up to half of the rows, under default, "
+    "permuted and -- half of the time -- non-unique row labels (integers or text); 'one row per "
+    "retained observation' is judged against the number of complete rows counted by the harness on "
+    "the caller's frame (columns = model_description(formula).var_names), for response, common, group "
+    "and every derived object; for ALL families the expected row count is now this count, not the "
+    "length of the design's own data",
+    "a fourth family (seed paths 'of<i>') adds an offset term (column, call, or a constant incl. 0 and "
+    "a negative one) in first or last position of a generated formula: slices / views / printing of the "
+    "training and derived objects are judged as for every other design (the evaluation model may "
+    "decline these designs: counted as model_skip)",
 ]
 TRUSTED = ["numpy column_stack / slicing, pandas DataFrame construction (modelled by hstack/slices)"]
 
@@ -196,6 +207,83 @@ def is_float_path(path):
     return isinstance(path, str) and path.startswith("fl")
 
 
+# ------------------------------------------------------------------------------------------------
+# "one row per retained observation": frames with missing values in columns the formula uses, under
+# relabelled (scrambled / non-unique) indexes; the number of retained observations is counted here,
+# on the caller's frame, not read from the design
+# ------------------------------------------------------------------------------------------------
+NA_ABLE = ("y", "x", "z", "yc", "f", "g", "h", "cu", "co")
+
+
+def is_na_path(path):
+    return isinstance(path, str) and path.startswith("na")
+
+
+def is_offset_path(path):
+    return isinstance(path, str) and path.startswith("of")
+
+
+def used_columns(formula, df):
+    import formulae
+    try:
+        names = formulae.model_description(formula).var_names
+    except Exception:  # noqa
+        return []
+    return [c for c in df.columns if c in names]
+
+
+def punch_missing(r, df, used):
+    """missing values (float NaN, str None, Categorical NaN) in 1..n/2 rows of the used columns that
+    can hold them; afterwards the rows are relabelled: default, permuted or -- more often --
+    non-unique labels, so that incomplete rows share their label with complete ones"""
+    cols = [c for c in used if c in NA_ABLE]
+    out = df.reset_index(drop=True).copy()
+    n = len(out)
+    if cols:
+        rows = r.sample(range(n), r.randrange(1, max(2, n // 2)))
+        holes = {c: set() for c in cols}
+        for i in rows:
+            for c in r.sample(cols, r.randrange(1, min(2, len(cols)) + 1)):
+                holes[c].add(i)
+        for c, hs in holes.items():
+            if not hs:
+                continue
+            col = out[c]
+            vals = col.tolist()
+            if isinstance(col.dtype, pd.CategoricalDtype):
+                out[c] = pd.Categorical([None if i in hs else v for i, v in enumerate(vals)],
+                                        categories=col.dtype.categories, ordered=col.dtype.ordered)
+            elif pd.api.types.is_numeric_dtype(col):
+                out[c] = np.array([np.nan if i in hs else v for i, v in enumerate(vals)], dtype=float)
+            else:
+                out[c] = np.array([None if i in hs else v for i, v in enumerate(vals)], dtype=object)
+    k = r.random()
+    if k < 0.5:
+        out.index = [r.randrange(0, max(2, n // 2)) for _ in range(n)]       # repeated labels
+    elif k < 0.6:
+        out.index = [r.choice(["a", "b", "c", "d"]) for _ in range(n)]       # repeated text labels
+    else:
+        out = designs.scramble_index(r, out)
+    return out
+
+
+def complete_mask(df, used):
+    if not used:
+        return np.ones(len(df), dtype=bool)
+    return ~df[used].isna().any(axis=1).to_numpy()
+
+
+OFFSETS = ["offset(z)", "offset(3)", "offset(0.5)", "offset(x)", "offset(I(z * 2))", "offset(np.abs(z))",
+           "offset(n)", "offset(2)", "offset(0)", "offset(-1)"]
+
+
+def add_offset(r, formula):
+    """the same design with an offset term (a column, a constant, a call) in first / last position"""
+    resp, rhs = formula.split(" ~ ", 1)
+    off = r.choice(OFFSETS)
+    return f"{resp} ~ {off} + {rhs}" if r.random() < 0.4 else f"{resp} ~ {rhs} + {off}"
+
+
 def explore(tier, seed, res=None, replay=None):
     import formulae
     res = res or Result()
@@ -203,7 +291,8 @@ def explore(tier, seed, res=None, replay=None):
                 "transforms, each followed by chains of 1-3 evaluate_new_data calls (60% with an "
                 "unseen group under the 'silent' policy), plus designs over categorical predictors / "
                 "grouping factors with float levels that differ only beyond the 6th significant "
-                "digit; non-trivial = a design with >= 2 terms in "
+                "digit, designs on frames with missing values in used columns under relabelled "
+                "(non-unique) indexes, designs with an offset term; non-trivial = a design with >= 2 terms in "
                 "some matrix; distinct by formula text")
     rng = rng_for(seed, "c17")
     n_cases = 300 if tier == "quick" else 10000
@@ -217,21 +306,39 @@ def explore(tier, seed, res=None, replay=None):
             cases.append((None, len(cases)))
         for i in range(100 if tier == "quick" else 3000):
             cases.append((None, f"fl{i}"))
+        for i in range(90 if tier == "quick" else 3000):
+            cases.append((None, f"na{i}"))
+        for i in range(60 if tier == "quick" else 2000):
+            cases.append((None, f"of{i}"))
     open_ids = {k["id"] for k in known_findings("C17")}
     views, owners, reqs, req_owner = [], [], [], []
     records = []
     for f, path in cases:
         r = rng_for(seed, "c17", path)
         df = designs.gen_frame(r)
+        # a replayed generated case draws its formula again (and uses the replayed text), so that the
+        # frame edits and new frames that follow come from the same stream as in the original run
+        regenerate = f is None or (replay is not None and not (
+            isinstance(path, int) and path < len(CORPUS) and CORPUS[path][0] == f))
         if is_float_path(path):
             df = add_float_columns(r, df)
-            formula = f or gen_float_formula(r)
+            g = gen_float_formula(r) if regenerate else None
             res.count("float_level_cases")
         else:
-            formula = f or designs.gen_formula(r, extra=True)
+            g = designs.gen_formula(r, extra=True) if regenerate else None
+        if is_offset_path(path):
+            g = add_offset(r, g) if regenerate else None
+            res.count("offset_cases")
+        formula = f or g
+        used = used_columns(formula, df)
+        if is_na_path(path) or (is_offset_path(path) and r.random() < 0.3):
+            df = punch_missing(r, df, used)
+            res.count("missing_value_cases")
+            res.count("missing_value_cases:index " + ("unique" if df.index.is_unique else "non-unique"))
+        keep = complete_mask(df, used)
         res.evaluations += 1
         with_unseen = r.random() < 0.6
-        news = new_frames(r, df, with_unseen)
+        news = new_frames(r, df if keep.all() else df[keep], with_unseen)
         obs, req = designs.observe(formula, df, designs.NAMES,
                                    [{"df": nd, "mode": "silent"} for nd in news])
         case = {"formula": formula, "seed_path": path}
@@ -240,7 +347,11 @@ def explore(tier, seed, res=None, replay=None):
             continue
         dm = obs["_dm"]
         rec = {"case": case, "bad": [], "views": []}
-        n = len(designs.dm_frame(dm, df))
+        # retained observations = complete rows of the caller's frame in the columns the formula
+        # names (counted here; the design's own idea of its data is not consulted)
+        n = int(keep.sum())
+        if n != len(df):
+            res.count("designs with dropped rows")
         # training objects and chains of evaluate_new_data
         old = formulae.config["EVAL_UNSEEN_CATEGORIES"]
         formulae.config["EVAL_UNSEEN_CATEGORIES"] = "silent"
